@@ -14,13 +14,13 @@ CHECKS = {
  "C07": ("fault_enumeration", "3.C07", "For each explored (state, operation) every user callback the operation performs gets its own execution with a panic injected exactly there; state judged after catch_unwind, model adopts it, rest of the schedule checked exactly. States are sampled, crash points per (state, op) are enumerated completely (up to 64 per op).", "deterministic simulation: crash-point enumeration of user callbacks"),
  "C08": ("exploration", "3.C08", "Every iterator kind checked for exact len/size_hint at every step, fusedness, clone independence, keys/values order; drain and into_iter consumed, dropped or forgotten after k steps.", "deterministic simulation: iterator protocol checks with cancellation"),
  "C09": ("exploration", "3.C09", "retain/drain_filter with explicit-subset predicates (incl. exactly the old / main table), value mutation, call log, early drop and forget.", "deterministic simulation: predicate call log vs reference partition"),
+ "C10": ("fault_enumeration", "3.C10", "In sampled states (any resize phase) the whole boundary set of size arguments (0, 1, free-1/free/free+1, len, cap, 2 cap, 4096, values within len+2*ceil(len/8)+2 of usize::MAX, isize::MAX and isize::MAX/size_of element, and requests above the simulated allocation limit) is applied to reserve, try_reserve, try_reserve with a failing allocator and shrink_to, each followed by the fill probe and a full contents comparison; dev and release builds.", "deterministic simulation: boundary-argument and allocation-failure enumeration in sampled states"),
  "C11": ("exploration", "3.C11", "clone/clone_from between maps with different hasher state in independent resize phases, then divergent histories against separate models and a shared ledger.", "deterministic simulation: two-collection histories vs two models"),
  "C12": ("exploration", "3.C12", "Entry/RawEntryMut method chains of depth <= 4 on keys chosen by location class; every accessor against the model; references returned by inserting calls written through and read back.", "deterministic simulation: handle chains vs reference model"),
  "C13": ("exploration", "3.C13", "Set histories and set algebra between three sets in independent phases against BTreeSet (fault-free configuration).", "deterministic simulation: seeded histories vs reference model"),
 }
 
 PENDING = {
- "C10": "claimed by the design (section 3.C10); its boundary-argument enumeration is not built yet in this commit",
  "C14": "claimed by the design (section 3.C14); its metamorphic driver is not built yet in this commit",
  "C15": "claimed by the design (section 3.C15); the shuttle-scheduled rayon-core stand-in is not built yet in this commit",
  "C16": "claimed by the design (section 3.C16); the serde stream harness is not built yet in this commit",
